@@ -93,6 +93,13 @@ T = [
  ('C15-r6m5', '/tmp/mut-R6/mutants/5', 'C15', [('demo_test.rs', 'src/kanata/mod.rs', M, 'r6m5_')]),
  ('C15-r6m6', '/tmp/mut-R6/mutants/6', 'C15', [('demo_test.rs', 'src/kanata/mod.rs', M, 'r6m6_')]),
  ('C03-r6m7', '/tmp/mut-R6/mutants/7', 'C03', [('demo_test.rs', 'parser/src/cfg/sexpr.rs', P, 'r6m7_')]),
+ # ---- round 7: tick_wt TapDance arm, add_kc_output / table builder, output-chord arm, play_macro
+ ('C17-r7m1', '/tmp/mut-R7/mutants/1', 'C17', [('demo_test.rs', 'keyberon/src/layout.rs', K, 'r7m1_')]),
+ ('C17-r7m2', '/tmp/mut-R7/mutants/2', 'C17', [('demo_test.rs', 'keyberon/src/layout.rs', K, 'r7m2_')]),
+ ('C14-r7m3', '/tmp/mut-R7/mutants/3', 'C14', [('demo_test.rs', 'src/tests/sim_tests/repeat_sim_tests.rs', M, 'r7m3_')]),
+ ('C14-r7m4', '/tmp/mut-R7/mutants/4', 'C14', [('demo_test.rs', 'src/tests/sim_tests/repeat_sim_tests.rs', M, 'r7m4_')]),
+ ('C04-r7m5', '/tmp/mut-R7/mutants/5', 'C04', [('demo_test.rs', 'keyberon/src/layout.rs', K, 'r7m5_')]),
+ ('C19-r7m6', '/tmp/mut-R7/mutants/6', 'C19', [('demo_test.rs', 'src/tests/sim_tests/macro_sim_tests.rs', M, 'r7m6_')]),
 ]
 ENV = dict(os.environ, CARGO_TARGET_DIR=TGT, CARGO_NET_OFFLINE='true')
 
